@@ -1,10 +1,12 @@
 /-
-  Further theorems that widen what the model covers.  TO BE PROVED: every `sorry` below.
+  Further theorems that widen what the model covers.  Proofs: Lemmas/AddHistory.lean, Lemmas/UnserSer.lean.
 -/
 import IppModel.Spec.Container
 import IppModel.Spec.Unser
 import IppModel.Lemmas.Refine
 import IppModel.Lemmas.Container
+import IppModel.Lemmas.AddHistory
+import IppModel.Lemmas.UnserSer
 namespace Ipp
 open Gen Spec
 
@@ -12,11 +14,12 @@ open Gen Spec
     groups) yields exactly the declaratively specified message -/
 theorem addAll_eq_history (gs : List Group) (ops : List AddOp) :
     ops.foldl (fun g o => addAttr o.1 o.2.1 o.2.2 g) gs = addHistory gs ops := by
-  sorry
+  have := AddHist.foldl_addHistory gs [] ops
+  rwa [AddHist.addHistory_nil, List.nil_append] at this
 
 /-- C03's independent decoder is right and the grammar is unambiguous: reading back the serialisation of a
     well-formed wire tree returns that tree and the trailing data -/
-theorem unser_ser (w : WMsg) (p : Bytes) (h : wfWire w = true) : unser (ser w ++ p) = some (w, p) := by
-  sorry
+theorem unser_ser (w : WMsg) (p : Bytes) (h : wfWire w = true) : unser (ser w ++ p) = some (w, p) :=
+  UnserSer.unser_ser w p h
 
 end Ipp
